@@ -831,6 +831,7 @@ static int parse_data(vnacal_load_state_t *vlsp, const vnacal_layout_t *vlp,
 		*item);
 	double frequency = -1.0;
 
+	(void)memset((void *)matrices, 0, sizeof(matrices));
 	for (pair = child->data.mapping.pairs.start;
 	     pair < child->data.mapping.pairs.top; ++pair) {
 	    yaml_node_t *key, *value;
